@@ -114,6 +114,38 @@ func c14Scenario(r *Rand, wseed uint64) (string, bool) {
 	return strings.Join(parts, " "), true
 }
 
+// c14StaleFlushScenario: ONE honest log; client 0 initialised at head a; then, concurrently, two lookups on client 0
+// (responses carrying heads s1 < s3) and one lookup on client 1 (head s2, s1 <= s2 <= s3) which shares the
+// configuration; schedule class "rflast": client 0's goroutines install their heads in memory and pause just before
+// ReadConfig while client 1 moves the stored head.  The stored head must never move backwards whatever happens next.
+func c14StaleFlushScenario(r *Rand, wseed uint64, monotone bool) string {
+	N := 6 + r.Intn(7)
+	h := 1 + r.Intn(3)
+	a := 3 + r.Intn(N-5) // 3 .. N-3
+	s1 := a + 1 + r.Intn(N-a-2)
+	s2 := s1 + r.Intn(N-s1)
+	if s2 == s1 {
+		s2 = s1 + 1
+	}
+	s3 := s2 + 1 + r.Intn(N-s2)
+	if s3 > N {
+		s3 = N
+	}
+	ids := []int{r.Intn(a), r.Intn(a), r.Intn(a), r.Intn(a)}
+	for k := 1; k < 4; k++ {
+		for ids[k] == ids[0] || (k == 3 && ids[3] == ids[1]) {
+			ids[k] = (ids[k] + 1) % a
+		}
+	}
+	strat, sizes := "rflast", fmt.Sprintf("%d,%d,%d", s1, s2, s3)
+	if !monotone {
+		// canonical order runs client 0 first: its two requests come first, client 1's last (a lagging frontend)
+		strat, sizes = "rflastc", fmt.Sprintf("%d,%d,%d", s1, s3, s2)
+	}
+	return fmt.Sprintf("client.run w=%d:%d:0:0 h=%d srv=A@%d new=0 look=0:A%d new=1:1 grow=%s par=%s:%d:0.A%d,1.A%d,0.A%d",
+		wseed, N, h, a, ids[0], sizes, strat, r.Intn(1000000), ids[1], ids[2], ids[3])
+}
+
 // clCheckEndsAtMax: after all lookups returned, the stored head and each client's in-memory head are the largest head seen.
 func c14CheckEndsAtMax(out *clOutcome) []clFinding {
 	var fs []clFinding
@@ -257,6 +289,10 @@ func c14Judge(g *Gen, line string, tag string) *clOutcome {
 func c14Oracle(g *Gen, n int) {
 	wseed := g.U64()%1000 + 1
 	for i := 0; i < n; i++ {
+		if i%4 == 3 {
+			c14Judge(g, c14StaleFlushScenario(g.Rand, wseed+uint64(i%7), true), "sched/stale-flush")
+			continue
+		}
 		line, _ := c14Scenario(g.Rand, wseed+uint64(i%7))
 		tag := "sched/" + line[strings.Index(line, "par=")+4:][:4]
 		c14Judge(g, line, tag)
